@@ -61,6 +61,15 @@ def main(inp, outp):
         for tag, proj in (("QSW", v["pq"]), ("TNW", v["pt"]), (None, None)):
             want = dv if proj is None else np.array(proj[0], float) / proj[1]
             got = ImpulsiveMan(DATE, dv, frame=tag).dv(sv)
+            # the delta-v is a value: written with Python ints (as the library's own examples do), as a tuple or an integer array
+            if all(float(x).is_integer() for x in v["dv"]):
+                for how, given in (("list of ints", [int(x) for x in v["dv"]]), ("tuple of ints", tuple(int(x) for x in v["dv"])),
+                                   ("integer array", np.array([int(x) for x in v["dv"]]))):
+                    g2 = np.asarray(ImpulsiveMan(DATE, given, frame=tag).dv(sv), float)
+                    g3 = np.asarray(ContinuousMan(DATE, timedelta(seconds=100), dv=given, frame=tag).accel(sv), float) * 100
+                    clause("a delta-v written with integers (list, tuple, integer array) is the same maneuver as with floats",
+                           np.abs(g2 - want).max() <= 1e-12 * max(np.linalg.norm(dv), 1) and np.abs(g3 - want).max() <= 1e-12 * max(np.linalg.norm(dv), 1),
+                           "local/man-integer-dv", f"tag {tag} dv {given!r} ({how}): {g2.tolist()} expected {want.tolist()}", data)
             gotc = ContinuousMan(DATE, timedelta(seconds=100), accel=dv * 1e-3, frame=tag).accel(sv)
             gotd = ContinuousMan(DATE, timedelta(seconds=100), dv=dv, frame=tag.lower() if tag else None).accel(sv) * 100
             nrm = np.linalg.norm(dv)
